@@ -400,3 +400,45 @@ def r4(cx):
         else:
             cx.violation(CONV, "between-not-negated", "%s: `x NOT BETWEEN a AND b` is converted to Between(x, a, b): chunks lying entirely outside [a, b] - exactly the matching ones - are pruned"
                          % b.sp(bi, si), [b.sp(bi, si)])
+
+
+PLAN_WALKERS = ["query::engine::QueryEngine::extract_predicates_from_plan", "query::engine::QueryEngine::extract_time_bounds"]
+SINGLE_INPUT = {"Filter", "Projection", "Sort", "Limit", "Aggregate", "Window", "Distinct", "SubqueryAlias", "Repartition"}
+
+
+@rule("C12", "R5", "filters are collected along a single-input chain only: extract_predicates_from_plan (and the time-window walk extract_time_bounds) recurses only from arms that name a one-input plan node (Filter, Projection, Sort, "
+      "Limit, Aggregate, ...) and only into that node's `input`; it never walks `inputs()` generically or enters Union / Join, where a WHERE clause belongs to one branch and ANDing it into "
+      "the query-wide conjunction prunes chunks the other branch needs")
+def r5(cx):
+    for fk in PLAN_WALKERS:
+        h = cx.hir(fk)
+        if h is None:
+            cx.violation(fk, "anchor-missing", "HIR not found", [])
+            continue
+        top = H.tail(h["tree"]) if h["tree"].get("k") == "block" else h["tree"]
+        if top is None or top.get("k") != "match":
+            cx.violation(fk, "plan-walk-shape", "%s: the plan walk is no longer a match on the plan node" % h["span"], [h["span"]])
+            continue
+        n_rec = 0
+        bad = []
+        for arm in top["arms"]:
+            recs = [n for n in H.walk(arm["body"]) if n.get("k") == "call" and (H.path_of(n.get("f")) or "").endswith(fk.rsplit("::", 1)[1])]
+            if not recs:
+                continue
+            for alt in H.pat_alts(arm["pat"]):
+                ch = [x.rsplit("::", 1)[-1] for x in H.pat_variant_chain(alt)]
+                var = ch[0] if ch else None
+                for r in recs:
+                    n_rec += 1
+                    a0 = H.strip(r["args"][0]) if r.get("args") else {}
+                    into_input = a0.get("k") == "field" and a0.get("name") == "input" and H.strip(a0.get("e", {})).get("k") == "local"
+                    if var in SINGLE_INPUT and into_input:
+                        continue
+                    bad.append((r.get("sp") or arm.get("sp"), var or "a catch-all arm", into_input))
+        cx.floor("recursive descents in %s" % fk.rsplit("::", 1)[1], n_rec, 4, fk)
+        if bad:
+            sp, var, into = bad[0]
+            cx.violation(fk, "descends-single-input-nodes-only", "%s: the filter collection descends from %s%s: below a multi-input node (UNION, JOIN) each branch's WHERE clause is ANDed into one "
+                         "query-wide conjunction, and chunks that satisfy only one branch are pruned" % (sp, var, "" if into else " into something other than that node's `input`"), [sp])
+        else:
+            cx.passed(fk, "descends-single-input-nodes-only", [h["span"]], "%d descents" % n_rec)
